@@ -13,7 +13,7 @@ static const struct fam FT[] = {{"AC", 3, 5, 0, 4}, {"ACG", 3, 3, 0, 4}, {"AC", 
 static const int DT[] = {KALIGN_TYPE_UNDEFINED, KALIGN_TYPE_DNA, KALIGN_TYPE_DNA_INTERNAL, KALIGN_TYPE_RNA};
 static const int PT[] = {KALIGN_TYPE_UNDEFINED, KALIGN_TYPE_PROTEIN, KALIGN_TYPE_PROTEIN_DIVERGENT};
 #define NMANY 48        /* 20..99-sequence sets built from few distinct sequences */
-#define NFRAG 24        /* a very long duplicated sequence plus short, almost-contained fragments (one edit each) */
+#define NFRAG 30        /* a very long duplicated sequence plus short, almost-contained fragments (one edit each) */
 #define NLONG 96         /* long duplicated sequence plus shorter relatives at substring edit distance exactly 256 / 512 */
 
 static const struct fam* fams(int tier, int* n)
@@ -67,7 +67,7 @@ static void decode(uint64_t id, int tier, struct dcase* c)
                 /* A (2600..4200 residues) twice + two ~100-residue fragments of it, each with one inserted residue at a different
                    side of a low-complexity stretch: neither is contained in A, both are far closer to it in edits than in length */
                 int k = (int)(id - NMANY - NLONG);
-                int L = 2600 + 400 * (k % 5), protein = (k / 5) & 1, layout = k / 10;
+                int L = 2600 + 400 * (k % 5), protein = 1, layout = (k / 5) % 3, variant = k / 15;
                 uint64_t st = 999 + (uint64_t)k + (uint64_t)vh_seed;
                 static char A[4400], X[160], Y[160];
                 const char* alpha = protein ? "LKWAVDEGST" : "ACGT";
@@ -82,11 +82,12 @@ static void decode(uint64_t id, int tier, struct dcase* c)
                 X[100] = 0;
                 memcpy(Y, A + at, 100);
                 Y[100] = 0;
-                /* insert one residue before / after the stretch */
-                o = 48;
+                /* insert one residue (R, similar to K) just inside the stretch, at its left end in one fragment and at its right end in the
+                   other: the gap this opens in A can sit at either end of the K run */
+                o = variant ? 48 : 49;
                 memmove(X + o + 1, X + o, strlen(X + o) + 1);
                 X[o] = protein ? 'R' : 'T';
-                o = 54;
+                o = variant ? 54 : 53;
                 memmove(Y + o + 1, Y + o, strlen(Y + o) + 1);
                 Y[o] = protein ? 'R' : 'T';
                 if(layout == 0){
